@@ -341,7 +341,7 @@ impl<A: Codec, const K: usize> Iterator for KmerIter<'_, A, K> {
 impl<A: Codec, const K: usize, S: KmerStorage> Hash for Kmer<A, K, S> {
     fn hash<H: Hasher>(&self, state: &mut H) {
         let ba = self.bs.to_bitarray();
-        let bs: &Bs = ba.as_ref();
+        let bs: &Bs = &ba.as_ref()[..K * A::BITS as usize];
         bs.hash(state);
         K.hash(state);
     }
